@@ -43,13 +43,15 @@ func (b Broken) Error() string { return b.Msg }
 func Brokenf(format string, a ...any) error { return Broken{fmt.Sprintf(format, a...)} }
 
 type Ctx struct {
-	Prop     string
-	Tier     string
-	Seed     int64
-	Level    string
-	Work     string
-	Start    time.Time
-	Thorough bool
+	// WorkerEnv: extra environment of the worker processes started from now on (QV_TWINONLY=1 ...)
+	WorkerEnv []string
+	Prop      string
+	Tier      string
+	Seed      int64
+	Level     string
+	Work      string
+	Start     time.Time
+	Thorough  bool
 	// AcceptRecorded: gradient values matching the specification's prediction under the recorded
 	// deviations are conformant for this property (it is not about gradient values)
 	AcceptRecorded bool
@@ -555,6 +557,26 @@ func (c *Ctx) Generate(module string, nparts int, timeout time.Duration, extraEn
 		}
 	}
 	return files, nil
+}
+
+// GenerateSample runs only part 0 of nparts of a Gen_* module: every nparts-th case (all families are represented).
+func (c *Ctx) GenerateSample(module string, nparts int, timeout time.Duration, extraEnv ...string) ([]string, error) {
+	out := filepath.Join(c.Work, fmt.Sprintf("%s-sample.ndjson", module))
+	env := append([]string{"QV_OUT=" + out, "QV_TIER=" + c.Tier, "QV_PART=0", fmt.Sprintf("QV_NPARTS=%d", nparts),
+		fmt.Sprintf("QV_SEED=%d", c.Seed%1000000)}, extraEnv...)
+	if _, err := c.MustTLC(TLCOpts{Module: module, Env: env, Timeout: timeout, Tag: module + "-sample"}); err != nil {
+		return nil, err
+	}
+	return []string{out}, nil
+}
+
+// TwinReplay replays the cases of other properties' generators ONLY for the differential runs that belong to this
+// property (sym.Run decides which by bind.Scope); comparisons with the specified values are skipped.
+func (c *Ctx) TwinReplay(files []string, nAssign int) error {
+	old := c.WorkerEnv
+	c.WorkerEnv = append(append([]string{}, old...), "QV_TWINONLY=1")
+	defer func() { c.WorkerEnv = old }()
+	return c.ReplaySym(files, nAssign)
 }
 
 // ReadLines streams the lines of ndjson files.
